@@ -111,6 +111,13 @@ def history(rng, p, nb, sizes=None):
     spread = rng.randint(6, 14)
     ev_ = bool(p.get("halves"))
     script = [("set_reference", batch(rng, F, loc, spread, n=rng.choice(sizes) if sizes else None, even=ev_))]
+    if rng.random() < 0.15:
+        # the stream starts by replaying the reference (twice, rows in another order): the first two distances of the epoch are exactly equal,
+        # the first observed epsilon is exactly 0
+        for _ in range(2):
+            rows = [list(r) for r in script[0][1]]
+            rng.shuffle(rows)
+            script.append(("update", rows))
     for b in range(nb):
         r = rng.random()
         if r < 0.3:
